@@ -232,7 +232,6 @@ pub struct Machine {
     // cls_map: HashMap<usize, usize>, //index from fntable index of program to it of machine.
     global_states: StateStorage,
     states_stack: StateStorageStack,
-    delaysizes_pos_stack: Vec<usize>,
     global_vals: Vec<RawVal>,
     debug_stacktype: Vec<RawValType>,
     current_ext_call_nargs: u8,
@@ -438,7 +437,6 @@ impl Machine {
             arrays: ArrayStorage::default(),
             global_states: Default::default(),
             states_stack: Default::default(),
-            delaysizes_pos_stack: vec![0],
             global_vals: vec![],
             debug_stacktype: vec![RawValType::Int; 255],
             current_ext_call_nargs: 0,
@@ -469,7 +467,6 @@ impl Machine {
             arrays: ArrayStorage::default(),
             global_states: Default::default(),
             states_stack: Default::default(),
-            delaysizes_pos_stack: vec![0],
             global_vals: vec![],
             debug_stacktype: vec![RawValType::Int; 255],
             current_ext_call_nargs: 0,
@@ -676,7 +673,6 @@ impl Machine {
         F: FnMut(&mut Self) -> ReturnCode,
     {
         let offset = (func_pos + 1) as u64;
-        self.delaysizes_pos_stack.push(0);
         self.base_pointer += offset;
 
         let snapshot_words = nargs as usize;
@@ -707,7 +703,6 @@ impl Machine {
         self.stack
             .truncate((self.base_pointer as i64 + nret_req as i64) as usize);
         self.base_pointer -= offset;
-        self.delaysizes_pos_stack.pop();
         nret
     }
     fn allocate_closure(&mut self, fn_i: usize, upv_map: &mut LocalUpValueMap) -> ClosureIdx {
@@ -1432,23 +1427,14 @@ impl Machine {
                 }
                 Instruction::PushStatePos(v) => self.get_current_state().push_pos(v),
                 Instruction::PopStatePos(v) => self.get_current_state().pop_pos(v),
-                Instruction::Delay(dst, src, time) => {
+                Instruction::Delay(dst, src, time, size_idx) => {
                     let i = self.get_stack(src as i64);
                     let t = self.get_stack(time as i64);
-                    // `delay_sizes` lists the function's delays in the order they are executed: each
-                    // delay takes the next entry (the position restarts with every call of the function)
-                    let delaysize_i = {
-                        let pos = unsafe { self.delaysizes_pos_stack.last_mut().unwrap_unchecked() };
-                        let i = *pos;
-                        *pos += 1;
-                        i
-                    };
-
                     let size_in_samples = unsafe {
                         *self
                             .get_fnproto(func_i)
                             .delay_sizes
-                            .get_unchecked(delaysize_i)
+                            .get_unchecked(size_idx as usize)
                     };
                     #[cfg(mimium_verif)]
                     self.verif_record_state_access(b'D', size_in_samples as usize + 2);
@@ -1578,9 +1564,6 @@ impl Machine {
                 self.stack[0] = 0;
             }
             self.base_pointer = 1;
-            if let Some(pos) = self.delaysizes_pos_stack.first_mut() {
-                *pos = 0;
-            }
             self.execute(idx, None)
         } else {
             0
